@@ -94,6 +94,7 @@ use super::{
     block_on,
     block_time,
     dump_state,
+    fee2,
     engine::{
         explore::{
             self,
@@ -360,6 +361,16 @@ fn alphabet(thorough: bool) -> Vec<Spec> {
         tx("bridge-withdraw-30-i1-ch0", &W, vec![withdrawal(Some((&BR1, "i1")), &BR1, native.clone(), 30, 0)]),
         tx("unlock-br1-10-i1", &W, vec![unlock(&BR1, &CAROL, 10, "i1")]),
         tx("withdraw-25-utia-ch0", &ALICE, vec![withdrawal(None, &ALICE, utia_here(), 25, 0)]),
+        // a second sequencer-origin fee asset that leaves, is delisted by the sudo address, and comes back
+        tx("withdraw-30-fee2-ch0", &ALICE, vec![withdrawal(None, &ALICE, fee2(), 30, 0)]),
+        tx("delist-fee2", &SUDO, vec![Action::FeeAssetChange(astria_core::protocol::transaction::v1::action::FeeAssetChange::Removal(fee2()))]),
+        inc("recv 20 returning fee2 -> ALICE ch0", Incoming::Recv {
+            denom: format!("transfer/{COUNTERPARTY_CHANNEL}/fee2"),
+            amount: 20,
+            receiver: addr(&ALICE).to_string(),
+            memo: String::new(),
+            channel: 0,
+        }),
         // authority: a withdrawal naming somebody else's plain account / a bridge the signer does not control
         tx("withdraw-15-from-ALICE-as-bridge-ch0", &BOB, vec![withdrawal(Some((&ALICE, "i7")), &BOB, native.clone(), 15, 0)]),
         tx("bridge-withdraw-15-i8-ch0-not-withdrawer", &DAVE, vec![withdrawal(Some((&BR1, "i8")), &DAVE, native.clone(), 15, 0)]),
@@ -529,7 +540,7 @@ impl IbcModel {
         let base = chain.begin_block_and_detach().await;
         let base_dump = Arc::new(dump_state(&base).await);
         let mut traces = BTreeMap::new();
-        for d in [Denom::from(nria()), utia_here()] {
+        for d in [Denom::from(nria()), utia_here(), fee2()] {
             traces.insert(asset_key(&d), match &d {
                 Denom::TracePrefixed(t) => t.to_string(),
                 Denom::IbcPrefixed(i) => i.to_string(),
@@ -810,6 +821,8 @@ impl Model for IbcModel {
                 tx_delta.ephemeral_put_ibc_context(tx_id, 0);
                 let handler_result: Result<(), String>;
                 let mut expectation: Option<(BTreeMap<(String, String), Wide>, bool)> = None; // (full-effect deltas, expects deposit)
+                // a reason why the reference is certain that this packet cannot be applied
+                let mut must_refuse: Option<String> = None;
                 let mut is_recv = false;
                 match incoming {
                     Incoming::Recv {
@@ -847,6 +860,10 @@ impl Model for IbcModel {
                         };
                         if let Ok(d) = asset_here.parse::<Denom>() {
                             let key = asset_key(&d);
+                            let post_blackburn = pre.verifiable.contains_key("upgrades/blackburn/ics20_transfer_action_change");
+                            if post_blackburn && !pre.verifiable.contains_key(&format!("fees/allowed_asset/{key}")) {
+                                must_refuse = Some(format!("`{asset_here}` is not an allowed fee asset (post-Blackburn only allowed fee assets may be received)"));
+                            }
                             if let Ok(recipient) = receiver.parse::<Address>() {
                                 let mut full = BTreeMap::new();
                                 full.insert((format!("acct:{}", b64(&recipient.bytes())), key.clone()), Wide::from_u128(*amount));
@@ -991,6 +1008,14 @@ impl Model for IbcModel {
                                 "{}: handler result {handler_result:?}; balance/escrow deltas {got:?}, new cached deposits {new_deposits}, deposit events {deposit_events}; full effect would be {full:?} with deposit={expects_deposit}",
                                 spec.name
                             ),
+                        ));
+                    }
+                    if let (true, Some(why), true) = (applied && !full.is_empty(), &must_refuse, violation.is_none()) {
+                        violation = Some(self.viol(
+                            "C18",
+                            "all-or-nothing",
+                            "an incoming packet that cannot be applied was applied",
+                            format!("{}: {why}; handler result {handler_result:?}; balance/escrow deltas {got:?}", spec.name),
                         ));
                     }
                     if applied {
